@@ -118,6 +118,13 @@ def execute(mat, ctx):
             i = rng.randrange(L)
             qs.append(q[:i] + rng.choice([x for x in "ACGT" if x != q[i]]) + q[i + 1:])
         qs += [s + s[:1], d, "", rot_left(s, rng.randrange(n))]
+        if mat["i"] % 3 == 0:
+            # a lower-case (soft-masked) record with lower-case queries, plus queries in the other case (which occur in no rotation)
+            s = s.lower()
+            r = _rec(s)
+            qs = [q.lower() for q in qs] + [q.upper() for q in qs[:6] if q]
+        elif mat["i"] % 3 == 1:
+            qs += [q.lower() for q in qs[:6] if q]
         k = rng.randrange(n)
         rk = r << k
         for q in qs:
@@ -171,6 +178,15 @@ def execute(mat, ctx):
                 ctx.violation("linear-accepted:%s" % how, "a record declaring topology=%r was wrapped as circular (%s)" % (topo, how), topology=topo)
             except ValueError:
                 pass
+    # a CircularRecord whose annotations were later edited to declare a linear molecule cannot be wrapped either
+    late = CircularRecord(Seq(s), "late", annotations={"topology": "circular"})
+    late.annotations["topology"] = rng.choice(["linear", "Linear", "LINEAR"])
+    ctx.count("topology_checks")
+    try:
+        CircularRecord(late)
+        ctx.violation("linear-accepted:circular-record-edited", "a CircularRecord whose annotations declare topology=%r was wrapped as circular" % late.annotations["topology"])
+    except ValueError:
+        pass
     for topo in ("circular", "Circular", None):
         ann = {"topology": topo} if topo else {}
         try:
@@ -184,6 +200,9 @@ def execute(mat, ctx):
                      letter_annotations={"q": list(range(n))})
     snap = lambda b: (str(b.seq), b.id, b.name, b.description, copy.deepcopy(b.dbxrefs), [(f.type, str(f.location), copy.deepcopy(f.qualifiers)) for f in b.features],
                       copy.deepcopy(b.annotations), copy.deepcopy(dict(b.letter_annotations)))
+    if mat["i"] % 2:
+        base = CircularRecord(base)          # the record being wrapped is itself a CircularRecord (a rotation, a product, a registry plasmid)
+        ctx.count("copy_checks_on_circular_originals")
     before = snap(base)
     c = CircularRecord(base)
     if (str(c.seq), c.id, c.name, c.description) != (s, "base", "bname", "bdesc") or len(c.features) != 1:
